@@ -37,6 +37,21 @@ type KnownField struct {
 	Ord    int
 }
 
+type KnownType struct {
+	Name       string // with "mqtttest." prefix
+	Underlying string
+	Ord        int
+}
+
+// KnownTypeNames gives the set of known named types (bare names, both packages).
+func KnownTypeNames() map[string]bool {
+	m := map[string]bool{}
+	for _, k := range KnownTypes {
+		m[strings.TrimPrefix(k.Name, "mqtttest.")] = true
+	}
+	return m
+}
+
 // Rename is one assumed identity.
 type Rename struct {
 	Kind string // func | field
@@ -45,7 +60,10 @@ type Rename struct {
 }
 
 func (r Rename) String() string {
-	return fmt.Sprintf("%s %s is taken to be the renamed %s (same %s, same declaration order)", r.Kind, r.New, r.Old, map[string]string{"func": "signature", "field": "struct and type"}[r.Kind])
+	if strings.Contains(r.New, " now)") {
+		return fmt.Sprintf("%s %s is taken to be %s (same parameters in the same positions)", r.Kind, r.New, r.Old)
+	}
+	return fmt.Sprintf("%s %s is taken to be the renamed %s (same %s, same declaration order)", r.Kind, r.New, r.Old, map[string]string{"func": "signature", "field": "struct and type", "type": "underlying type"}[r.Kind])
 }
 
 // KnownFuncNames gives the set of known function names.
@@ -114,6 +132,7 @@ func declaredNames(dir string) (funcs, fields map[string]bool, err error) {
 						if !ok {
 							continue
 						}
+						fields["type "+sub.prefix+ts.Name.Name] = true
 						st, ok := ts.Type.(*ast.StructType)
 						if !ok {
 							continue
@@ -144,6 +163,11 @@ func needRenameScan(dir string) bool {
 	}
 	for _, k := range KnownFields {
 		if !fields[k.Struct+"."+k.Name] {
+			return true
+		}
+	}
+	for _, k := range KnownTypes {
+		if !fields["type "+k.Name] {
 			return true
 		}
 	}
@@ -241,6 +265,58 @@ func Declared(pk *packages.Package) (fs []curFunc, flds []curField) {
 	return fs, flds
 }
 
+type curType struct {
+	name, under string
+	obj         types.Object
+	pos         token.Position
+}
+
+// DeclaredTypes lists the named types of one package in declaration order.
+// The underlying type is rendered with the type's own name blanked, so that a
+// renamed type compares equal to its former self.
+func DeclaredTypes(pk *packages.Package) []curType {
+	prefix, ok := pkgPrefix(pk.PkgPath)
+	if !ok {
+		return nil
+	}
+	files := append([]*ast.File(nil), pk.Syntax...)
+	sort.Slice(files, func(i, j int) bool {
+		return pk.Fset.Position(files[i].Pos()).Filename < pk.Fset.Position(files[j].Pos()).Filename
+	})
+	var out []curType
+	for _, f := range files {
+		if strings.HasSuffix(pk.Fset.Position(f.Pos()).Filename, "_test.go") {
+			continue
+		}
+		for _, d := range f.Decls {
+			gd, ok := d.(*ast.GenDecl)
+			if !ok {
+				continue
+			}
+			for _, sp := range gd.Specs {
+				ts, ok := sp.(*ast.TypeSpec)
+				if !ok {
+					continue
+				}
+				obj := pk.TypesInfo.Defs[ts.Name]
+				if obj == nil {
+					continue
+				}
+				self := obj.Name()
+				u := types.TypeString(obj.Type().Underlying(), func(p *types.Package) string {
+					if p == pk.Types {
+						return ""
+					}
+					return p.Name()
+				})
+				u = strings.ReplaceAll(u, "."+self, ".·")
+				out = append(out, curType{prefix + self, u, obj, pk.Fset.Position(ts.Name.Pos())})
+			}
+		}
+	}
+	return out
+}
+
 type posKey struct {
 	file string
 	off  int
@@ -260,7 +336,77 @@ func detectRenames(pkgs []*packages.Package) (map[posKey]string, []Rename) {
 		if !ok {
 			continue
 		}
+		// named types first: methods of a renamed type carry its new name in theirs
+		typeNew := map[string]string{} // new bare name → old bare name
+		{
+			cur := DeclaredTypes(pk)
+			haveT := map[string]bool{}
+			for _, t := range cur {
+				haveT[t.name] = true
+			}
+			knownT := map[string]bool{}
+			type tgrp struct {
+				old []KnownType
+				new []curType
+			}
+			tg := map[string]*tgrp{}
+			for _, k := range KnownTypes {
+				if (prefix == "") != !strings.HasPrefix(k.Name, "mqtttest.") {
+					continue
+				}
+				knownT[k.Name] = true
+				if !haveT[k.Name] {
+					if tg[k.Underlying] == nil {
+						tg[k.Underlying] = &tgrp{}
+					}
+					tg[k.Underlying].old = append(tg[k.Underlying].old, k)
+				}
+			}
+			for _, t := range cur {
+				if knownT[t.name] || t.obj.Exported() {
+					continue
+				}
+				if tg[t.under] == nil {
+					tg[t.under] = &tgrp{}
+				}
+				tg[t.under].new = append(tg[t.under].new, t)
+			}
+			var tkeys []string
+			for k := range tg {
+				tkeys = append(tkeys, k)
+			}
+			sort.Strings(tkeys)
+			for _, k := range tkeys {
+				g := tg[k]
+				if len(g.old) == 0 || len(g.old) != len(g.new) {
+					continue
+				}
+				sort.Slice(g.old, func(i, j int) bool { return g.old[i].Ord < g.old[j].Ord })
+				for i := range g.old {
+					oldBare := strings.TrimPrefix(g.old[i].Name, prefix)
+					byDecl[posKey{g.new[i].pos.Filename, g.new[i].pos.Offset}] = oldBare
+					typeNew[strings.TrimPrefix(g.new[i].name, prefix)] = oldBare
+					out = append(out, Rename{"type", g.old[i].Name, g.new[i].name})
+				}
+			}
+		}
+		respell := func(name string) string {
+			// "(*newT).m" → "(*oldT).m"
+			for nw, old := range typeNew {
+				name = strings.Replace(name, "(*"+nw+").", "(*"+old+").", 1)
+				name = strings.Replace(name, "("+nw+").", "("+old+").", 1)
+			}
+			return name
+		}
 		fs, flds := Declared(pk)
+		for i := range fs {
+			fs[i].name = respell(fs[i].name)
+		}
+		for i := range flds {
+			if old, ok := typeNew[strings.TrimPrefix(flds[i].strct, prefix)]; ok {
+				flds[i].strct = prefix + old
+			}
+		}
 		have := map[string]bool{}
 		for _, f := range fs {
 			have[f.name] = true
